@@ -8,6 +8,7 @@ import XzVerif.Model.Gxz
 import XzVerif.Model.GFlag
 import XzVerif.Model.Writer2
 import XzVerif.Model.Ring
+import XzVerif.Model.Writer1
 /-
   driver — line protocol around the executable definitions of Spec and Model.
   One request per line on stdin, one reply line on stdout.  Core-only, so it links.
@@ -341,6 +342,18 @@ def handle (line : String) : String :=
   | "ring" :: "edict" :: dc :: bs :: cmds => match dc.toNat?, bs.toNat? with
     | some dc, some bs => " ".intercalate (runScript ringEDictCmd (Ring.EDict.new dc bs) cmds)
     | _, _ => "bad-op"
+  -- w1run <propsByte> <dictCap> <bufSize> <sizeInHeader> <size> <eos> <ops> <call>... → per call n:err | stream
+  | "w1run" :: pb :: dc :: bs :: sih :: sz :: eos :: ops :: calls =>
+    match pb.toNat?.bind Lzma2.propsOfByte, dc.toNat?, bs.toNat?, sz.toNat?,
+          ((ops.splitOn ".").filter (fun x => x ≠ "" ∧ x ≠ "-")).mapM parseGoOp with
+    | some p, some dc, some bs, some sz, some ops =>
+      let cfg := W1.fill { props := p, dictCap := dc, bufSize := bs, sizeInHeader := boolOf sih, size := sz, eosMarker := boolOf eos }
+      let cl : List W1.Call := calls.map (fun c => if c = "C" then W1.Call.close else W1.Call.write (unhex (c.drop 1).toString))
+      let (rs, out) := W1.run cfg W2.Script (W1.init cfg ops) cl
+      let en : Option W1.Err → String := fun e => match e with
+        | none => "ok" | some .noSpace => "nospace" | some .size => "size" | some (.other _) => "other"
+      " ".intercalate (rs.map (fun (n, e) => s!"{n}:{en e}")) ++ " | " ++ (match out with | some o => hex o | none => "none")
+    | _, _, _, _, _ => "bad-op"
   | ["lzmaops", h] =>
     let r := Lzma1.read 0 (unhex h)
     " ".intercalate (r.ops.toList.map opStr)
